@@ -1,6 +1,7 @@
 package main
 
 import (
+	"errors"
 	"bytes"
 	"context"
 	"encoding/json"
@@ -39,6 +40,19 @@ type c12case struct {
 	// opposite values inside a SaveFlagsAndMod window whose restore closure ran; "window-active" = the opposite values
 	// first, then the wanted ones inside a SaveFlagsAndMod window that is still open
 	FlagHist string `json:"flag_history,omitempty"`
+	// the destination stores the record and then reports an error (a disk that fills up, a sync that fails): the
+	// termination rule does not depend on the writer's verdict
+	FailingWriter bool `json:"destination_reports_an_error,omitempty"`
+	// context keys are registered on the logger and the call passes a nil context (where the entry point takes one)
+	NilCtxKeys bool `json:"nil_context_and_registered_context_keys,omitempty"`
+}
+
+// failAfterStore writes the payload through and reports an error all the same.
+type failAfterStore struct{ f *os.File }
+
+func (w failAfterStore) Write(p []byte) (int, error) {
+	n, _ := w.f.Write(p)
+	return n, errors.New("write: no space left on device (injected after the bytes were stored)")
 }
 
 var c12entries = []string{"verb", "ctxverb", "LogAttrs", "Logit", "Log(std)", "pkg.verb", "pkg.ctxverb"}
@@ -86,6 +100,22 @@ func c12enumerate() []c12case {
 			x := b
 			x.Bench = true // a production process that happens to carry an argument starting with -bench is still a production process
 			out = append(out, x)
+		}
+	}
+	// a destination that reports an error, and a nil context on a logger with registered context keys
+	m := 0
+	for _, b := range base {
+		if b.Format == "json" && b.Admit {
+			x := b
+			x.FailingWriter = true
+			y := b
+			y.NilCtxKeys = true
+			if m%2 == 0 {
+				out = append(out, x, y)
+			} else {
+				out = append(out, y, x)
+			}
+			m++
 		}
 	}
 	// the flag values are what counts, not the idiom that produced them
@@ -169,6 +199,12 @@ func c12exec(c *Ctx, out string) {
 		lg = lg.New("kid")
 	}
 	lg.SetWriter(f).SetErrorWriter(f)
+	if cs.FailingWriter {
+		lg.SetWriter(failAfterStore{f}).SetErrorWriter(failAfterStore{f})
+	}
+	if cs.NilCtxKeys {
+		lg.SetContextKeys("rid", "uid")
+	}
 	switch cs.Format {
 	case "json":
 		lg.SetJSONMode(true)
@@ -194,6 +230,9 @@ func c12exec(c *Ctx, out string) {
 		sev, std = slog.FatalLevel, slog.LevelFatal
 	}
 	ctx := context.Background()
+	if cs.NilCtxKeys {
+		ctx = nil
+	}
 	var res c12result
 	func() {
 		defer func() {
